@@ -351,6 +351,11 @@ def cases(draw, measures):
         n = draw(st.integers(16, 22))
         A = draw(gen.er_adj(n, False, "dense")) | gen.ring_adj(n)
         return {"measure": m, "W": A.astype(float), "family": "dense-large"}
+    if m == "findwalks" and draw(st.integers(0, 2)) == 0:
+        # directed networks: the entry (i, j) counts walks FROM i TO j
+        n = draw(st.integers(2, 8))
+        A = draw(gen.er_adj(n, True)) if draw(st.booleans()) else draw(gen.dring_chords_adj(max(n, 3), max_chords=3))
+        return {"measure": m, "W": A.astype(float), "family": "directed", "order": draw(st.sampled_from(gen.ORDERS))}
     A, fam = draw(spectral_graph(8 if m == "findwalks" else 12))
     if m == "eigenvector" and draw(st.booleans()):
         W = draw(gen.weights_for(A, "dyadic", False)) * draw(st.sampled_from([1.0, 1.0] + gen.POW2_SCALES))
